@@ -62,12 +62,14 @@ def validate_time_x(x, times=None, n_features=None, cast_scalar=False):
     """
 
     x = validate_array(x, "x", ndim=2)
-    if (
-        cast_scalar
-        and times is not None
-        and (isscalar(times) or all(s == 1 for s in times.shape))
-    ):
-        times = full(x.shape[0], times)
+    if cast_scalar and times is not None:
+        if not isscalar(times):
+            # array-likes (lists, column vectors, one-element arrays of any rank)
+            times = asarray(times, dtype=float)
+            if times.size == 1:
+                times = times.reshape(())
+        if isscalar(times) or times.ndim == 0:
+            times = full(x.shape[0], times)
     times = validate_array(times, "times", optional=True, ndim=(1, 2))
 
     if times is not None:
